@@ -438,6 +438,7 @@ META_EVENTS = [
     ['setdefault', 'VK1', 9], ['setdefault', 'VK3', 9], ['setdefault', 'BAD', 9],
     ['ior', {'VK1': 7}], ['ior', {'BAD': 7}], ['ior', {'VK3': 1, 'BAD': 7}],
     ['or', {'BAD': 1}],
+    ['update_meta_obj', 'other'], ['update_meta_obj', 'same'], ['ior_meta_obj', 'other'], ['ior_meta_obj', 'same'],
     ['pop', 'VK1'], ['del', 'VK2'], ['clear'],
 ]
 
@@ -491,6 +492,16 @@ def explore_meta(res, which, tier, run=True):
                 r = m | _sub(ev[1], km)
                 if isinstance(r, K) and bad in r:
                     return 'ok:badkey-in-result'
+            elif op in ('update_meta_obj', 'ior_meta_obj'):
+                # a Meta instance as argument: of the same class (valid keys) or of the other class (its keys are
+                # outside this class' vocabulary)
+                Other = regions.RegionVisual if which == 'RegionMeta' else regions.RegionMeta
+                arg = K({km['VK2']: 'from-obj'}) if ev[1] == 'same' else Other({'edgecolor': 'red'} if which == 'RegionMeta' else {'label': 'x'})
+                if op == 'update_meta_obj':
+                    m.update(arg)
+                else:
+                    m |= arg
+                    st['m'] = m
             elif op == 'pop':
                 m.pop(km[ev[1]], None)
             elif op == 'del':
@@ -506,6 +517,8 @@ def explore_meta(res, which, tier, run=True):
         return [type(st['m']).__name__, sorted((k, repr(v)) for k, v in st['m'].items())]
 
     def introduces_bad(ev):
+        if ev[0] in ('update_meta_obj', 'ior_meta_obj'):
+            return ev[1] == 'other'
         return any(bad in (_sub(x, km) if not isinstance(x, str) else [_sub(x, km)]) or
                    (isinstance(x, list) and any(p[0] == bad for p in _sub(x, km)))
                    for x in ev[1:] if isinstance(x, (dict, list, str)))
@@ -528,9 +541,10 @@ def explore_meta(res, which, tier, run=True):
             return True
         if introduces_bad(ev):
             res.nontriv(('meta', which, repr(ev), kb))
-            if bad in m:
+            foreign = [k for k in m if k not in K.valid_keys]
+            if bad in m or foreign:
                 res.violation(ID, 'invalid_key_accepted', case,
-                              f'{which}: {ev} stored the key {bad!r}, which is outside the documented vocabulary', 'KeyError', outcome)
+                              f'{which}: {ev} stored the key {(foreign or [bad])[0]!r}, which is outside the documented vocabulary', 'KeyError', outcome)
                 return False
             if not raised:
                 res.violation(ID, 'invalid_key_accepted', case, f'{which}: {ev} did not raise', 'KeyError', outcome)
